@@ -35,6 +35,16 @@ fn push_model<T, A: core::alloc::Allocator>(v: &mut Vec<T, A>, x: T) {
     }
 }
 
+/// `<[T]>::fill` as an element-wise loop (the library version is a memset with a symbolic length, which CBMC's
+/// array theory does not survive when 17 of them are chained in `build`). Same result by definition of fill.
+fn fill_model<T: Clone>(s: &mut [T], value: T) {
+    let mut i = 0;
+    while i < s.len() {
+        s[i] = value.clone();
+        i += 1;
+    }
+}
+
 fn check_push(model: bool) {
     let mut v: Vec<u64> = Vec::with_capacity(4);
     let init: [u64; 3] = kani::any();
@@ -187,6 +197,7 @@ fn check_table_against_spec(hc: &HuffmanCode, t: &BuiltHuffmanTable) {
 #[kani::proof]
 #[kani::unwind(18)]
 #[kani::stub(std::vec::Vec::push, push_model)]
+#[kani::stub(<[u8]>::fill, fill_model)]
 fn build_matches_annex_c() {
     let hc = any_code_in_parser_range(MAXV);
     kani::assume(hc.values.len() >= 2); // at least one symbol + the sentinel (libjxl rejects anything else)
